@@ -14,16 +14,22 @@ impl BlockHandle {
     /// Decodes a block handle from `from` and returns a block handle
     /// together with how many bytes were read from the slice.
     pub fn decode(from: &[u8]) -> (BlockHandle, usize) {
-        let (off, offsize) = usize::decode_var(from).unwrap();
-        let (sz, szsize) = usize::decode_var(&from[offsize..]).unwrap();
+        BlockHandle::try_decode(from).unwrap()
+    }
 
-        (
+    /// Like `decode()`, but returns None instead of panicking if `from` does not start with two
+    /// varints.
+    pub fn try_decode(from: &[u8]) -> Option<(BlockHandle, usize)> {
+        let (off, offsize) = usize::decode_var(from)?;
+        let (sz, szsize) = usize::decode_var(&from[offsize..])?;
+
+        Some((
             BlockHandle {
                 offset: off,
                 size: sz,
             },
             offsize + szsize,
-        )
+        ))
     }
 
     pub fn new(offset: usize, size: usize) -> BlockHandle {
